@@ -71,6 +71,44 @@ Global Instance exec_note_n_spec s no len qlen vel timing slur :
   Spec (exec_note_n s no len qlen vel timing slur) (np (exec_note_n s no len qlen vel timing slur))
   := exec_note_n_np s no len qlen vel timing slur.
 
+(* TempoChange: Ok, or Unsupported (a ramp beyond RAMP_MAX ticks; a time base below 4) *)
+Lemma exec_tempo_change_total s a rest :
+  match exec_tempo_change s a rest with Ok _ | Unsupported _ => True | _ => False end.
+Proof.
+  unfold exec_tempo_change, tempo_change_a_to_b. destruct rest as [|b [|len [|x r]]]; try exact I;
+    destruct (_ =? 0); try exact I; destruct (RAMP_MAX <? _); exact I.
+Qed.
+Lemma exec_tempo_change_np s a rest : np (exec_tempo_change s a rest).
+Proof. pose proof (exec_tempo_change_total s a rest) as T. destruct (exec_tempo_change s a rest); try exact I; destruct T. Qed.
+Global Instance exec_tempo_change_spec s a rest : Spec (exec_tempo_change s a rest) (np (exec_tempo_change s a rest))
+  := exec_tempo_change_np s a rest.
+Lemma exec_tempo_change_nf s a rest : nf (exec_tempo_change s a rest).
+Proof. pose proof (exec_tempo_change_total s a rest) as T. destruct (exec_tempo_change s a rest); try exact I; destruct T. Qed.
+
+(* SysEx: Ok, or Unsupported (more than SYSEX_MAX values); GSEffect with its first argument: always Ok (data[0] exists) *)
+Lemma exec_sysex_total s cs args : match exec_sysex s cs args with Ok _ | Unsupported _ => True | _ => False end.
+Proof. unfold exec_sysex. destruct args; [exact I|]. destruct (SYSEX_MAX <? _); exact I. Qed.
+Lemma exec_sysex_np s cs args : np (exec_sysex s cs args).
+Proof. pose proof (exec_sysex_total s cs args) as T. destruct (exec_sysex s cs args); try exact I; destruct T. Qed.
+Global Instance exec_sysex_spec s cs args : Spec (exec_sysex s cs args) (np (exec_sysex s cs args)) := exec_sysex_np s cs args.
+Lemma exec_sysex_nf s cs args : nf (exec_sysex s cs args).
+Proof. pose proof (exec_sysex_total s cs args) as T. destruct (exec_sysex s cs args); try exact I; destruct T. Qed.
+Lemma cmd_gs_effect_cons tp dev ch tag a rest : exists evs, Cmd.cmd_gs_effect tp dev ch tag (a :: rest) = Ok evs.
+Proof.
+  unfold Cmd.cmd_gs_effect. repeat match goal with |- context [if ?b then _ else _] => destruct b end; eexists; reflexivity.
+Qed.
+Lemma exec_gs_effect_total s tag a rest : exists s', exec_gs_effect s tag a rest = Ok s'.
+Proof.
+  unfold exec_gs_effect. destruct (cmd_gs_effect_cons (tr_timepos (cur_track s)) (as_u8 (s_device s)) (tr_channel (cur_track s)) tag a rest) as [evs ->].
+  eexists. reflexivity.
+Qed.
+Lemma exec_gs_effect_np s tag a rest : np (exec_gs_effect s tag a rest).
+Proof. destruct (exec_gs_effect_total s tag a rest) as [s' ->]. exact I. Qed.
+Global Instance exec_gs_effect_spec s tag a rest : Spec (exec_gs_effect s tag a rest) (np (exec_gs_effect s tag a rest))
+  := exec_gs_effect_np s tag a rest.
+Lemma exec_gs_effect_nf s tag a rest : nf (exec_gs_effect s tag a rest).
+Proof. destruct (exec_gs_effect_total s tag a rest) as [s' ->]. exact I. Qed.
+
 Section ExecNP.
 Variable ec : list tok -> res song -> res song.
 Hypothesis ec_np : forall X r, np r -> np (ec X r).
@@ -197,6 +235,9 @@ Proof.
   assert (ENN : forall s no len qlen vel timing slur,
             Spec (exec_note_n s no len qlen vel timing slur) (nf (exec_note_n s no len qlen vel timing slur)))
     by exact exec_note_n_nf.
+  assert (ETC : forall s a rest, Spec (exec_tempo_change s a rest) (nf (exec_tempo_change s a rest))) by exact exec_tempo_change_nf.
+  assert (ESX : forall s cs args, Spec (exec_sysex s cs args) (nf (exec_sysex s cs args))) by exact exec_sysex_nf.
+  assert (EGS : forall s tag a rest, Spec (exec_gs_effect s tag a rest) (nf (exec_gs_effect s tag a rest))) by exact exec_gs_effect_nf.
   intros T B. destruct t; cbn [tok_fuel_ok] in T; try discriminate T.
   all: try (np_start; cbn [step_song] in H; repeat brk H; np_end H; fail).
   - cbn [step_song]. match goal with |- context [ec ?X (Ok ?x)] => pose proof (ec_nf X x T B) as Q; destruct (ec X (Ok x)) end; exact Q || exact I.
